@@ -9,9 +9,10 @@ ID = "C08"
 HARNESSES = [dict(name="radius", pkg="./plugins/auth/radius/", test="TestVerifC08", timeout=900,
                   files=[("plugins/auth/radius/zz_verif_c08_test.go", "harness/C08/zz_verif_c08_test.go")])]
 MODEL_NEEDS_IMPL = True
-# one digit per repair flag: reply authenticator / CoA authenticators / Disconnect replay window / CoA whitelist
-VARIANTS = ["repaired", "defective", "v0111", "v1011", "v1101", "v1110", "v1001", "v1010", "v1100"]
-FLAGS = {"repaired": "1111", "defective": "0000"}
+# model variants: "repaired" = every repair incl. the Event-Timestamp requirement (full theorems); "head" = what /repo
+# HEAD implements after the four committed C08 fixes (Event-Timestamp not yet required: one recorded known finding).
+# Regressions of a committed fix match neither and are VIOLATIONs.
+VARIANTS = ["repaired", "head"]
 RULE = ("reply: 1-3 sequential exchanges on one real radiusConn over loopback UDP (identifier and request authenticator "
         "forced, identifier often re-used between rounds); per round 1-5 datagrams from the classes genuine / genuine+MA / "
         "RA-ok-MA-bad / RA-bad-MA-ok / forged / wrong-secret / bit-flipped attribute, authenticator or code / other "
@@ -232,7 +233,7 @@ def gen_coa_packet(rng, clients, win, nasid):
         attrs.append(rng.choice(good_t * 3 + bad_t))
     if rng.random() < 0.4:
         attrs.append((32, rng.choice([nasid or b"bng1", nasid or b"bng1", nasid or b"bng1", b"other", b"", b"bng2", b"bng", b"bng12", b"Bng1"])))
-    ts = rng.choice([None, None, None, "TS+0", "TS-5", "TS+7", "TS-2", "TS-%d" % win, "TS-%d" % (win + 1), "TS+%d" % win,
+    ts = rng.choice([None, None, "TS+0", "TS+1", "TS-1", "TS-5", "TS+7", "TS-2", "TS-%d" % win, "TS-%d" % (win + 1), "TS+%d" % win,
                      "TS+%d" % (win + 1), "TS-100000", "TS+100000", bytes(4), b"\x00\x00\x01", "TS-%d" % max(win - 1, 0)])
     if ts is not None:
         attrs.append((55, ts))
@@ -364,38 +365,34 @@ def classify(case, impl, model):
     return "G", "unknown case kind"
 
 
-DEFECT_ORDER = "awlr"  # index into the flag string: r=0 a=1 w=2 l=3
-FLAG_POS = {"r": 0, "a": 1, "w": 2, "l": 3}
-
-
 def signature(case, impl, models):
-    match = []
-    for v, line in models.items():
-        if line == impl:
-            f = FLAGS.get(v, v[1:])
-            match.append((f.count("0"), f))
-    if not match:
+    """Only one finding is open: a CoA/Disconnect without usable Event-Timestamp executed while the window is
+    enabled.  The signature is returned only if the implementation's line equals the [head] model's line AND the
+    difference to [repaired] is exactly that: a packet whose recipe has no usable Event-Timestamp, window > 0,
+    executed (reply) by the implementation and dropped by [repaired]; every other packet agrees."""
+    if case.split(" ", 1)[0] != "coa" or models.get("head") != impl:
         return None
-    match.sort()
-    f = match[0][1]
-    kind = case.split(" ", 1)[0]
-    if kind in ("reply", "auth"):
-        return "reply-accepted-without-authenticator-check" if f[0] == "0" else None
-    if f[FLAG_POS["a"]] == "0":
-        rep = models.get("repaired", "")
-        for a, b in zip(_segs(impl), _segs(rep)):
-            if _tok(a, "ra") == "0" or _tok(a, "ma") == "0":
-                return "coa-reply-authenticators-do-not-verify"
-        for a, b in zip(_segs(impl), _segs(rep)):
-            pa, pb = _coa_proj(a), _coa_proj(b)
-            if pa[0] == "reply" and pb[0] == "drop":
-                return "coa-request-accepted-without-request-authenticator"
-        return "coa-rfc5176-message-authenticator-rejected"
-    if f[FLAG_POS["w"]] == "0":
-        return "disconnect-request-outside-replay-window-accepted"
-    if f[FLAG_POS["l"]] == "0":
-        return "coa-changes-attribute-outside-mutable-set"
-    return None
+    rep = models.get("repaired", "")
+    t = case.split()
+    win = int(t[1].split("=", 1)[1])
+    pk = [p.strip() for p in " ".join(t[6:]).split("|") if p.strip()]
+    si, sr = _segs(impl), _segs(rep)
+    if win <= 0 or len(pk) != len(si) or len(si) != len(sr):
+        return None
+    hit = False
+    for p, a, b in zip(pk, si, sr):
+        if a == b:
+            continue
+        kv = dict(x.split("=", 1) for x in p.split())
+        ts_tokens = [x.split(":", 1)[1] for x in kv.get("attrs", "-").split(",") if x.startswith("55:")]
+        usable = [x for x in ts_tokens if x.startswith("TS") or (len(x) == 8 and x != "00000000")]
+        first_usable_is_first_4byte = bool(usable)
+        if "raw" in kv or first_usable_is_first_4byte:
+            return None
+        if _coa_proj(a)[0] != "reply" or _coa_proj(b)[0] != "drop":
+            return None
+        hit = True
+    return "coa-without-event-timestamp-bypasses-window" if hit else None
 
 
 def nontrivial(case, out):
